@@ -41,7 +41,13 @@ class C03(Spec):
                 out.append(self.job(s))
             for s in docs.g2_shards(docs.load_pool("mini"), replace=True):
                 out.append(self.job(s))
+            for name, n in (("autolink", 5), ("emphasis", 4)):
+                for s in docs.sigma_shards(name, n, 1):
+                    out.append(self.job(s, budget=200.0))
         else:
+            for name, n, split in (("autolink", 6, 1), ("emphasis", 6, 2), ("links", 5, 1), ("containers", 5, 1)):
+                for s in docs.sigma_shards(name, n, split):
+                    out.append(self.job(s, budget=900.0))
             for s in docs.g1_shards(2):
                 out.append(self.job(s))
             for s in docs.g2_shards(docs.load_pool("thorough"), replace=True):
